@@ -10,3 +10,4 @@ INVARIANT ConcatLaw
 INVARIANT DoLaw
 PROPERTY OnlyTargetChanges
 PROPERTY RejectedLeavesState
+PROPERTY CallsOwnNothing
